@@ -33,7 +33,7 @@ COMMON = dict(
     p_wrap=0.4,
     max_nodes=12,
     item_fault_modes=["error", "unset", "falsyerror"],
-    exc_cls=["exc", "exc", "falsy", "frozen"],
+    exc_cls=["exc", "exc", "falsy", "frozen", "tasky"],
     try_kinds=["exc", "exc", "none"],
     w_stmt=dict(sync=2.2, raise_=0.6, try_=1.0, with_=1.6, ret=0.3, orphan=0.3, read=0.3),
     w_leaf=dict(call=6, item=5, err=0.4, junk=0.08, lazy=0.5, again=0.4, dbg=0.0, const=0.8),
@@ -111,7 +111,7 @@ def make_case(cs, rnd):
         if names:
             prog["ctx_faults"] = {}
             for nm in rnd.sample(names, min(len(names), rnd.randint(1, 2))):
-                prog["ctx_faults"][nm] = [rnd.choice(["resume", "pause", "pause"]), rnd.randint(1, 3)]
+                prog["ctx_faults"][nm] = [rnd.choice(["resume", "pause", "pause"]), rnd.randint(1, 3), rnd.choice(["exc", "exc", "frozen", "tasky", "falsy"])]
     elif kind == "before":
         opts["before_raise"] = rnd.randint(1, 3)
     elif kind == "evilflush":
